@@ -12,7 +12,9 @@ CFG = cfg('C05', refine=['Refine_sig'], extract='Ex_Sig', driver='sig',
 TEXT = ('Rocq theorems (Props/C05.v, closed): for every packet body the signature parser accepts, the octets fed to the hash for the '
         'signature header and hashed subpackets are literally the received octets (hashed_region_verbatim, hcontext_is_received), the kept region '
         'is exactly as long as its declared count (overrun rejected), and two accepted packets differing anywhere in the signed region never share a '
-        'hash input (signed_region_change_changes_input, via the C01 trailer-injectivity lemmas). Tie: correspondence of SignatureV4.parse / '
+        'hash input (signed_region_change_changes_input, via the C01 trailer-injectivity lemmas); the SubPackets object as a state machine '
+        '(Model/SubArea.v: parse, add to either area, copy, serialise): what is hashed stays the received area along every history of copies and unhashed '
+        'additions, for every way the parsed objects might serialise, and no received octets survive an addition to their area (never_stale). Tie: correspondence of SignatureV4.parse / '
         'PGPSignature.hashdata with the extracted model on generated areas + independent signer end to end + exhaustive bit flips of the signed region.',
         'DESIGN.md 5 C05',
         'machine-checked proof in Rocq (Coq 8.16.1) + extracted-model correspondence + fault enumeration of the signed region')
